@@ -221,6 +221,7 @@ class _Cursor(object):
             els = p[2] if len(p) > 2 and not s.get('hasVar') else (p[3] if len(p) > 3 else None)
             # a branch that leaves the function does not constrain the other
             n0 = len(self.reads)
+            np0 = len(self.problems)
             oa = self.stmt(then, off)
             ra = self.reads[n0:]
             n1 = len(self.reads)
@@ -234,6 +235,8 @@ class _Cursor(object):
                 return ob
             if b_exits and not a_exits:
                 return oa
+            if not (oa - ob).is_zero() and len(self.problems) > np0:
+                return oa       # (what a branch consumes was not followed: reported there, nothing to compare here)
             if not (oa - ob).is_zero():
                 self.problems.append((s, 'branches of if consume different amounts'))
             return oa
@@ -337,8 +340,10 @@ def check_cursor(ctx):
     okdl = P_len is not None
     if P_len is None:
         P_len = Poly()
-    if not okdl and any(y.get('kind') in ('ForStmt', 'WhileStmt', 'DoStmt', 'CXXForRangeStmt') or
-                        (y.get('kind') == 'BinaryOperator' and y.get('opcode') in ('.*', '->*')) for y in walk(fd)):
+    if not okdl and (any(y.get('kind') in ('ForStmt', 'WhileStmt', 'DoStmt', 'CXXForRangeStmt') or
+                         (y.get('kind') == 'BinaryOperator' and y.get('opcode') in ('.*', '->*')) for y in walk(fd)) or
+                     not int_type((dtype(pd) or qtype(pd) or '').replace('const ', ''))):
+        # (... or takes the width as something other than an integer, an enumeration say, and converts it itself)
         # the length summed in a loop over a table of counts / through pointers to members: the sum is not followed, and
         # without it the byte accounting of the decoder has nothing to be compared with
         ctx.unknown('C12-cursor', 'Header::DataLength is a polynomial in the header counts', fd,
@@ -471,6 +476,9 @@ def check_index(ctx):
                 why = 'the constant index %d is stored while %s may hold %d elements' % (c, cont, sized)
             elif re.match(r'^cctz::Decode8\(', vk):
                 ok, how, why = _sanitised(ctx, u, f, x, tgt, cnt, F)
+            elif _decoded_local(u, val) is not None:
+                # the byte is decoded into a const local first, stored (without narrowing) and the local is what is compared
+                ok, how, why = _sanitised(ctx, u, f, x, _decoded_local(u, val), cnt, F)
             elif re.search(r'\.(type_index|abbr_index)$|default_transition_type_$', vk) or _is_carrier_copy(u, f, val):
                 ok, how = True, 'copy of a validated carrier'
             elif peel(val).get('kind') in ('DeclRefExpr', 'CXXStaticCastExpr'):
@@ -602,10 +610,11 @@ def _grown_local(ctx, u, f, store, val, cont, F):
         return None
     vk = '%s#%s' % (d['name'], did)
     sizek = 'this.%s.size()' % cont
-    srcs = [Keys(u).key(kids(d)[-1])]
+    # (keys as the fact engine has them: a snapshot local such as `const size_t n = c.size()` is keyed as what it stands for)
+    srcs = [keys.key(kids(d)[-1])]
     for y in walk(f):
         if y.get('kind') == 'BinaryOperator' and y.get('opcode') == '=' and (peel(kids(y)[0]).get('referencedDecl') or {}).get('id') == did:
-            srcs.append(Keys(u).key(kids(y)[1]))
+            srcs.append(keys.key(kids(y)[1]))
         if y.get('kind') in ('UnaryOperator', 'CompoundAssignOperator') and y.get('opcode') in ('++', '--', '+=', '-=') and \
                 (peel(kids(y)[0]).get('referencedDecl') or {}).get('id') == did:
             return None
@@ -634,6 +643,28 @@ def _grown_local(ctx, u, f, store, val, cont, F):
     if grow and not g.reachable_avoiding(g.nodes_for(store), grow, cut_edges):
         return 'container size taken before it is grown; <= 255'
     return None
+
+
+def _decoded_local(u, val):
+    """The reference to a never-reassigned local initialised with Decode8(..) that <val> denotes (through casts that keep
+    every value of the local's type), or None."""
+    x = peel(val)
+    src_t = None
+    while x is not None and x.get('kind') in ('CXXStaticCastExpr', 'CStyleCastExpr', 'CXXFunctionalCastExpr', 'ImplicitCastExpr') and kids(x):
+        inner = peel(kids(x)[-1])
+        tr_o, tr_i = type_range(int_type(dtype(x) or '') or ()) if int_type(dtype(x) or '') else None, \
+            type_range(int_type(dtype(inner) or '') or ()) if inner is not None and int_type(dtype(inner) or '') else None
+        if tr_o is None or tr_i is None or not (tr_o[0] <= tr_i[0] and tr_i[1] <= tr_o[1]):
+            return None
+        x = inner
+    if x is None or x.get('kind') != 'DeclRefExpr':
+        return None
+    d = u.by_id.get((x.get('referencedDecl') or {}).get('id'))
+    if d is None or d.get('kind') != 'VarDecl' or not kids(d) or not (dtype(d) or '').startswith('const '):
+        return None
+    if not re.match(r'^cctz::Decode8\(', Keys(u).key(kids(d)[-1])):
+        return None
+    return x
 
 
 def _sanitised(ctx, u, f, store, tgt, cnt, F):
@@ -1000,6 +1031,40 @@ class _SubObs(Observer):
         self.ovf[id(e)] = (e, val, it)
 
 
+def bind_trans_offset(ai, u, f, st, leap, weekday):
+    """Bind the inputs of TransOffset by what they are, not by position: the PosixTransition (named ('PT',)), the leap-year
+    flag (a bool) and January 1st's weekday (an int), whether they are parameters or members of a record parameter.
+    False when the signature is not of that shape."""
+    n_b = n_i = n_pt = 0
+    for p_ in params_of(f):
+        t = (dtype(p_) or qtype(p_) or '').replace('const ', '').replace('&', '').strip()
+        if 'PosixTransition' in t:
+            st.refs[p_['id']] = ('PT',)
+            n_pt += 1
+        elif t == 'bool':
+            st.mem[(p_['id'],)] = leap
+            n_b += 1
+        elif t == 'int':
+            st.mem[(p_['id'],)] = weekday
+            n_i += 1
+        else:
+            rec = ai._record(u, t)
+            if rec is None or not (qtype(p_) or '').rstrip().endswith('&'):
+                return False
+            st.refs[p_['id']] = ('YS',)
+            for fd in kids(rec):
+                if fd.get('kind') != 'FieldDecl':
+                    continue
+                ft_ = (dtype(fd) or qtype(fd) or '').replace('const ', '').strip()
+                if ft_ == 'bool':
+                    st.mem[('YS', fd.get('name'))] = leap
+                    n_b += 1
+                elif ft_ == 'int':
+                    st.mem[('YS', fd.get('name'))] = weekday
+                    n_i += 1
+    return (n_b, n_i, n_pt) == (1, 1, 1)
+
+
 def check_footer(ctx, rule):
     G = ctx.G
     R = c16.analyse_parser(ctx)
@@ -1024,9 +1089,10 @@ def check_footer(ctx, rule):
     ai = AI(G, obs)
     ps = params_of(f)
     st = St()
-    st.mem[(ps[0]['id'],)] = Int(0, 1)
-    st.mem[(ps[1]['id'],)] = Int(0, 6)
-    st.refs[ps[2]['id']] = ('PT',)
+    if not bind_trans_offset(ai, u, f, st, Int(0, 1), Int(0, 6)):
+        ctx.unknown(rule, 'TransOffset subscripts within the tables', f, 'the inputs of TransOffset (leap-year flag, weekday of January 1st, '
+                    'rule date) were not identified in its parameter list', construct='footer:transoffset')
+        return 0
     for key, val in hull.items():
         st.mem[('PT',) + key] = val
     res = ai.analyse(k, st)
